@@ -1,6 +1,7 @@
 package props
 
 import (
+	"sort"
 	"encoding/json"
 	"fmt"
 	"strings"
@@ -557,6 +558,84 @@ func runC19(c *mc.Ctx) {
 			lcalls.Add(n)
 		})
 		c.Note("calls_on_longer_lists", lcalls.Load())
+		// realistic magnitudes: values around 2^31, 2^32 and up to the 21e14 cap, confirmations up to 10^6
+		// (value-age products around and beyond 2^53 and 2^63/8); all ordered lists of length <= 3 over
+		// 6 such coins x boundary targets (each value, each prefix sum, the total, each +-1) x MaxInputs
+		{
+			bigKinds := [][2]int64{{1<<31 - 1, 1}, {1 << 31, 2}, {1<<32 + 1, 0}, {1000000000000, 1000000}, {700000000000000, 3}, {2100000000000000, 1},
+				{30000000000000, 10000}, {10000000000000, 10000}} // value-ages of 3e17 and 1e17 (beyond 2^53)
+			var cs []c19Sel
+			var lists [][][2]int64
+			for a := range bigKinds {
+				lists = append(lists, [][2]int64{bigKinds[a]})
+				for b := range bigKinds {
+					lists = append(lists, [][2]int64{bigKinds[a], bigKinds[b]})
+					for d := range bigKinds {
+						if a != b && b != d && a != d {
+							lists = append(lists, [][2]int64{bigKinds[a], bigKinds[b], bigKinds[d]})
+						}
+					}
+				}
+			}
+			for _, l := range lists {
+				tset := map[int64]bool{0: true, 1: true}
+				sum := int64(0)
+				for _, vc := range l {
+					sum += vc[0]
+					for _, d := range []int64{-1, 0, 1} {
+						tset[vc[0]+d] = true
+						tset[sum+d] = true
+					}
+				}
+				var tgts []int64
+				for tgt := range tset {
+					if tgt >= 0 {
+						tgts = append(tgts, tgt)
+					}
+				}
+				sort.Slice(tgts, func(i, j int) bool { return tgts[i] < tgts[j] })
+				for _, tgt := range tgts {
+					for _, sel := range c19Selectors {
+						for mi := 0; mi <= len(l)+1; mi++ {
+							for _, ch := range []int64{0, 1, 1 << 31} {
+								avgs := []int64{0}
+								if sel == "minpriority" {
+									avgs = []int64{0, 1, 1 << 32, 1 << 50}
+									// the required average placed within a few units of what each prefix of the list can
+									// deliver (exact integer arithmetic is needed there); only where value-ages exceed
+									// 2^53, MaxInputs admits the whole list and no change is demanded
+									if mi >= len(l) && ch == 0 && len(l) >= 2 {
+										va, huge := int64(0), false
+										for _, vc := range l {
+											if vc[0]*vc[1] > 1<<53 {
+												huge = true
+											}
+										}
+										for k, vc := range l {
+											va += vc[0] * vc[1]
+											q := va / int64(k+1)
+											for d := int64(-1); d <= 8 && huge; d++ {
+												if q+d > 0 {
+													avgs = append(avgs, q+d)
+												}
+											}
+										}
+									}
+								}
+								for _, av := range avgs {
+									cs = append(cs, c19Sel{Sel: sel, Coins: l, Target: tgt, MaxInputs: mi, MinChange: ch, MinAvg: av})
+								}
+							}
+						}
+					}
+				}
+			}
+			c.Space("large-magnitude coins: lists of <= 3 over 6 kinds x boundary targets x MaxInputs x MinChange (x MinAvg)", int64(len(cs)))
+			c.ParFor(int64(len(cs)), func(w *mc.W, i int64) {
+				w.State()
+				c19EvalSel(w, cs[i])
+			})
+		}
 		// a 300-coin list (counts beyond one byte), distinct values and value-ages, boundary parameters
 		{
 			n := 300
